@@ -40,7 +40,7 @@ def _set_winsize(fd, rows=50, cols=250):
         pass
 
 
-def run(argv, workdir, stdin=b'', mode='pipe', timeout=20, extra_env=None, retry_timeout=True):
+def run(argv, workdir, stdin=b'', mode='pipe', timeout=20, extra_env=None, retry_timeout=True, rlimit_as=None):
     """mode: 'pipe'      stdin pipe, stdout pipe            (both non-terminal)
              'ptyin'     stdin pty,  stdout pipe            (script on argv)
              'ptyout'    stdin pipe, stdout pty
@@ -53,13 +53,13 @@ def run(argv, workdir, stdin=b'', mode='pipe', timeout=20, extra_env=None, retry
     # loaded); only a second timeout is reported as a hang
     for attempt in (0, 1):
         clear_san_logs(logdir)
-        r = _run_once(argv, workdir, stdin, mode, timeout if attempt == 0 else timeout * 4, extra_env, logdir)
+        r = _run_once(argv, workdir, stdin, mode, timeout if attempt == 0 else timeout * 4, extra_env, logdir, rlimit_as)
         if not r.timeout or not retry_timeout or attempt == 1 or r.flood:
             return r
     return r
 
 
-def _run_once(argv, workdir, stdin, mode, timeout, extra_env, logdir):
+def _run_once(argv, workdir, stdin, mode, timeout, extra_env, logdir, rlimit_as=None):
     res = Result()
     res.argv = list(argv)
     res.stdin = stdin
@@ -89,7 +89,14 @@ def _run_once(argv, workdir, stdin, mode, timeout, extra_env, logdir):
         out_r, out_w = os.pipe()
     err_r, err_w = os.pipe()
     t0 = time.time()
-    p = subprocess.Popen(argv, cwd=workdir, env=env, stdin=in_r, stdout=out_w, stderr=err_w, close_fds=True, start_new_session=True)
+    pre = None
+    if rlimit_as:
+        # resource fault injection: an address-space ceiling (plain builds only - the sanitizer runtimes reserve terabytes)
+        import resource
+
+        def pre():
+            resource.setrlimit(resource.RLIMIT_AS, (rlimit_as, rlimit_as))
+    p = subprocess.Popen(argv, cwd=workdir, env=env, stdin=in_r, stdout=out_w, stderr=err_w, close_fds=True, start_new_session=True, preexec_fn=pre)
     os.close(out_w)
     os.close(err_w)
     if mode not in ('ptyin', 'pty'):
